@@ -316,6 +316,16 @@ func Decode(c2s, s2c []byte, o DecodeOpts) (*Session, error) {
 		return s, fmt.Errorf("ServerHello: %v", err)
 	}
 	tr(m)
+	// both randoms carry 28 bytes from the endpoint's entropy source (whatever read
+	// sizes that source delivers): a run of 8 zero bytes does not happen by chance
+	for _, hr := range []struct {
+		who string
+		r   []byte
+	}{{"ClientHello", s.CH.Random}, {"ServerHello", s.SH.Random}} {
+		if n := longestZeroRun(hr.r); len(hr.r) == 32 && n >= 8 {
+			return s, fmt.Errorf("%s.random holds %d consecutive zero bytes: the field was not filled from the entropy source", hr.who, n)
+		}
+	}
 	if s.SH.Vers != s.CH.Vers {
 		return s, fmt.Errorf("ServerHello version %04x, ClientHello version %04x", s.SH.Vers, s.CH.Vers)
 	}
@@ -659,4 +669,19 @@ func (s *Session) AuditNonces(d int) error {
 		}
 	}
 	return nil
+}
+
+func longestZeroRun(b []byte) int {
+	best, cur := 0, 0
+	for _, x := range b {
+		if x == 0 {
+			cur++
+			if cur > best {
+				best = cur
+			}
+		} else {
+			cur = 0
+		}
+	}
+	return best
 }
